@@ -970,3 +970,74 @@ func specHoldsVarInt(data []byte, p int, v int64) bool {
 	}
 	return ok
 }
+
+// ---------------------------------------------------------------------------
+// Text escapes (Ion text spec, "Escape Characters").
+
+// specHexDigit: the value of a hexadecimal digit, -1 for anything else.
+func specHexDigit(b byte) int {
+	switch {
+	case '0' <= b && b <= '9':
+		return int(b - '0')
+	case 'a' <= b && b <= 'f':
+		return int(b-'a') + 10
+	case 'A' <= b && b <= 'F':
+		return int(b-'A') + 10
+	}
+	return -1
+}
+
+// specAllHex: the next n (at most 8) bytes of the tokenizer's input are hexadecimal digits.
+func specAllHex(t *tokenizer, n int) bool {
+	ok := true
+	for i := 0; i < 8; i++ {
+		if i < n && specHexDigit(tkByte(t, i)) < 0 {
+			ok = false
+		}
+	}
+	return ok
+}
+
+// specHexValue: the number the next n (at most 8) hexadecimal digits denote.
+func specHexValue(t *tokenizer, n int) uint32 {
+	v := uint32(0)
+	for i := 0; i < 8; i++ {
+		if i < n {
+			v = v<<4 | uint32(specHexDigit(tkByte(t, i)))
+		}
+	}
+	return v
+}
+
+// specSimpleEscape: the character a one-letter escape denotes, -1 if the letter is not one.
+func specSimpleEscape(c byte) rune {
+	switch c {
+	case '0':
+		return 0
+	case 'a':
+		return 7
+	case 'b':
+		return 8
+	case 't':
+		return 9
+	case 'n':
+		return 10
+	case 'f':
+		return 12
+	case 'r':
+		return 13
+	case 'v':
+		return 11
+	case '?':
+		return '?'
+	case '/':
+		return '/'
+	case '\'':
+		return '\''
+	case '"':
+		return '"'
+	case '\\':
+		return '\\'
+	}
+	return -1
+}
